@@ -144,7 +144,11 @@ func VerifH_C03_DeclaredDistributions() {
 
 func VerifH_C03_EncryptDecrypt() {
 	vConfig("algebraic-samplers", "1")
-	for i := 0; i < 5; i++ {
+	nsets := 5
+	if vTier() > 0 {
+		nsets = VerifSetup_NumParamSets() // longer chains, 61-bit primes, moduli of unequal sizes
+	}
+	for i := 0; i < nsets; i++ {
 		c := VerifSetup_Ctx(i, vIsAlgebraic())
 		c.Kgen.GenSecretKey(c.Sk)
 		c.Kgen.GenSecretKey(c.Sk2)
